@@ -112,6 +112,20 @@ Definition validate_optional (prog : key) (a : option acct) (ls : list layer) : 
       else do _ <- validate_layers a ls; Ok true
   end.
 
+(* Vec<T> of single-account sets validated as a whole (account_set/impls/vec.rs 158-224): every element in order with
+   the element's own argument; the argument forms are 0 = `()`, 1 = `(TA,)` (cloned for every element), 2 = `Vec<TA>` with
+   k arguments (at least one per account, surplus ignored), 3 = `[TA; k]` (exactly one per account) *)
+Definition validate_vec (accs : list acct) (ls : list layer) (form k : Z) : out unit :=
+  if (form =? 2) && (k <? zlen accs) then Err PE_INVALID_ARGUMENT
+  else if (form =? 3) && negb (k =? zlen accs) then Err PE_INVALID_ARGUMENT
+  else (fix go (l : list acct) : out unit :=
+          match l with
+          | [] => Ok tt
+          | a :: r => do _ <- validate_layers a ls; go r
+          end) accs.
+
+Definition args_fit (form k n : Z) : Prop := (form = 2 -> n <= k) /\ (form = 3 -> k = n).
+
 (* plain specification the layers are compared with *)
 Definition layer_ok (a : acct) (l : layer) : Prop :=
   match l with
@@ -198,5 +212,29 @@ Definition run_c09 (input : list Z) : list Z :=
             else [1; EC_ADVANCE_ERROR]
       | _ => []
       end
+  | _ => []
+  end.
+
+(* c09v case: prog(32) :: form :: k :: n :: n * (key(32) owner(32) signer writable) :: layers *)
+Fixpoint decode_accts (n : nat) (l : list Z) : list acct * list Z :=
+  match n with
+  | O => ([], l)
+  | S m =>
+      let k := firstn 32 l in
+      let r1 := skipn 32 l in
+      let owner := firstn 32 r1 in
+      match skipn 32 r1 with
+      | sg :: wr :: r2 =>
+          let '(rest, tail) := decode_accts m r2 in
+          (mkAcct k owner (bool_of_z sg) (bool_of_z wr) [] true :: rest, tail)
+      | _ => ([], [])
+      end
+  end.
+
+Definition run_c09v (input : list Z) : list Z :=
+  match skipn 32 input with
+  | form :: k :: n :: r =>
+      let '(accs, ls) := decode_accts (Z.to_nat n) r in
+      out_tag (validate_vec accs (decode_layers (length ls) ls) form k)
   | _ => []
   end.
